@@ -602,8 +602,15 @@ void process(std::string const& line)
     watched[dst] = (dst % 2) ? new DW(static_cast<DW const&&>(src)) : new DW(std::move(src));
   } else if (op == "assignw") {
     int d = std::stoi(t[1]);
-    if (d % 2) *watched.at(d) = static_cast<DW const&>(*watched.at(std::stoi(t[2])));
-    else *watched.at(d) = *watched.at(std::stoi(t[2]));
+    // the source named as a non-const lvalue, a const lvalue, an rvalue and a const rvalue in turn (by the id of the
+    // target and of the source): whichever assignment operator that selects, the source keeps its requirements
+    DW& src = *watched.at(std::stoi(t[2]));
+    switch ((d + 2 * std::stoi(t[2])) % 4) {
+    case 0: *watched.at(d) = src; break;
+    case 1: *watched.at(d) = static_cast<DW const&>(src); break;
+    case 2: *watched.at(d) = std::move(src); break;
+    default: *watched.at(d) = static_cast<DW const&&>(src); break;
+    }
   } else if (op == "killw") {
     int x = std::stoi(t[1]);
     current_watched = x;
